@@ -153,15 +153,14 @@ class Monitors:
             self.op_mark = len(sim.BROKER.oplog)
             # did this step append a *Failed history event (failure path of a fan-out)?
             failed_now = False
-            joined_now = False
+            joined_now = 0
             for arn_, h in list(inst.eng.execution_history.items()):
                 k0 = self.hist_mark.get(arn_, 0)
                 new_events = list(h)[k0:]
                 self.hist_mark[arn_] = len(h)
                 if any(("Failed" in e["type"] or "TimedOut" in e["type"]) for e in new_events):
                     failed_now = True
-                if any(e["type"] in ("ParallelStateExited", "MapStateExited") for e in new_events):
-                    joined_now = True
+                joined_now += len([e for e in new_events if e["type"] in ("ParallelStateExited", "MapStateExited")])
             acked = {}          # execution ARN -> first event acknowledged for it in this step
             pending_start = None
             for o in ops:
@@ -188,7 +187,9 @@ class Monitors:
                         continue
                     tag = ""
                     if self.had_join or inst.eng.branch_metadata:
-                        if o[0] == "broadcast" or joined_now:
+                        # (a single join that has a Next publishes its successor first: only the successor published
+                        # by an ENCLOSING join, i.e. two joins completed in this one step, falls under the finding)
+                        if o[0] == "broadcast" or joined_now >= 2:
                             tag = "[join-end] "          # known finding: a completed fan-out acks its held events before the terminal record / the successor of the enclosing join
                         elif failed_now:
                             tag = "[join-failure] "      # known finding: check_pending_results acks before retry/catch successor
